@@ -74,12 +74,12 @@ class World:
                 return None
             nu = len(self.uidx)
             lst = [self.uidx[x % nu] for x in (i, j, k)][: 1 + k % 3]
-            return ("newv_u", lst)
+            return ("newv_u", lst, (k // 3) % 3)
         if name == "newu":
             if nv >= 7:
                 return None
             lst = [x % nv for x in (i, j, k)][: k % 4]
-            return ("newu", lst)
+            return ("newu", lst, (k // 4) % 3)
         if name in ("flag", "query", "repickle"):
             return (name, k)
         raise ValueError(f"unknown op {name}")
@@ -142,11 +142,16 @@ class World:
         if name == "vr":
             return self.vs[r[2]].remove_from_universe(self.vs[r[1]])
         if name == "newv_u":
-            nvx = Vertex(universes=[self.vs[x] for x in r[1]], attributes={"i": len(self.vs)})
+            arg = [self.vs[x] for x in r[1]]
+            # the argument may be any iterable: list, tuple, or a one-shot iterator
+            arg = (arg, tuple(arg), iter(arg))[r[2] if len(r) > 2 else 0]
+            nvx = Vertex(universes=arg, attributes={"i": len(self.vs)})
             self.vs.append(nvx)
             return nvx
         if name == "newu":
-            nu = Universe(vertices=[self.vs[x] for x in r[1]])
+            arg = [self.vs[x] for x in r[1]]
+            arg = (arg, tuple(arg), (x for x in arg))[r[2] if len(r) > 2 else 0]
+            nu = Universe(vertices=arg)
             self.vs.append(nu)
             self.uidx.append(len(self.vs) - 1)
             return nu
